@@ -25,7 +25,8 @@ pub struct O {
     pub b: Vec<N2>,
     #[serde(default)]
     pub c: Vec<()>,
-    pub s: String,
+    /// a scalar whose name has a list field's name as a proper prefix
+    pub ab: String,
 }
 
 /// One child element: its field name, its XML and its number of deserializer events.
@@ -141,7 +142,7 @@ fn values(level: usize) -> Vec<O> {
     for a in &a_lists {
         for b in &b_lists {
             for c in 0..=max.min(2) {
-                out.push(O { id: 7, a: a.clone(), b: b.clone(), c: vec![(); c], s: "v".into() });
+                out.push(O { id: 7, a: a.clone(), b: b.clone(), c: vec![(); c], ab: "v".into() });
             }
         }
     }
@@ -237,8 +238,9 @@ pub fn run(ctx: &Ctx) {
         let v = &vals[i as usize];
         // contiguous serialization must be the field-order concatenation
         let ga: Vec<Child> = v.a.iter().map(|s| leaf('a', s)).collect();
-        let gc: Vec<Child> = v.c.iter().map(|_| leaf('c', "")).collect();
-        let gs = vec![leaf('s', &v.s)];
+        // unit items: the first one is written with its own name nested twice inside (content of a unit is ignored)
+        let gc: Vec<Child> = v.c.iter().enumerate().map(|(k, _)| if k == 0 { Child { name: 'c', xml: "<c><c><c/>t</c></c>".into(), events: 7, inner_peak: 0 } } else { leaf('c', "") }).collect();
+        let gs = vec![Child { name: 's', xml: format!("<ab>{}</ab>", v.ab), events: 3, inner_peak: 0 }];
         // every combination of inner interleavings of the b items
         let mut gb_variants: Vec<Vec<Child>> = vec![vec![]];
         for n in &v.b {
@@ -260,7 +262,7 @@ pub fn run(ctx: &Ctx) {
             gc.iter().map(|c| c.xml.as_str()).collect::<String>(),
             gs[0].xml
         );
-        match quick_xml::se::to_string(v) {
+        match quick_xml::se::to_string(v).map(|s| s.replacen("<c/>", "<c><c><c/>t</c></c>", 1)) {
             Ok(s) if s == contiguous => {}
             other => {
                 acc.violation((0, i), format!("MACHINERY: contiguous serialization of {:?} is {:?}, the harness builds {:?}", v, other, contiguous), json!({"value": i}));
